@@ -1,0 +1,20 @@
+// SPDX-FileCopyrightText: 2026 The Pion community <https://pion.ly>
+// SPDX-License-Identifier: MIT
+
+//go:build verif
+
+package webrtc
+
+// Contracts for the contract-based verification in /verif (build tag verif).
+// This file holds comments only; see /verif/DESIGN.md §4 for the syntax.
+
+//@ func checkNextSignalingState
+//@ props C01 C02
+//@ ensures (err == nil) == (specEdge(cur, op, sdpType) != SignalingStateUnknown && specEdge(cur, op, sdpType) == next)
+//@ ensures err == nil ==> ret0 == next
+//@ ensures err != nil ==> ret0 == cur
+//@ modifies nothing
+
+//@ func specEdge
+//@ pure
+//@ nosafety
